@@ -630,6 +630,16 @@ def const_or_value(e, env):
 
 def eval_assign(lhs_w, e, env):
     """value a net of width lhs_w receives from `assign net = e`"""
+    if isinstance(e, tuple) and e and e[0] == 'slice' and e[1][0] == 'id' and e[1][1] in env:
+        # IEEE 1364-2005 5.2.1: the bits of a part select that lie outside the declared range read as x.  When the target is narrow enough
+        # for the assignment to truncate every such bit away, no x reaches the net: evaluate the in-range part only.
+        s_ = env[e[1][1]]
+        try:
+            hi, lo = const_eval(e[2], env), const_eval(e[3], env)
+        except XValue:
+            hi = lo = None
+        if hi is not None and 0 <= lo < s_.w <= hi and lhs_w <= s_.w - lo:
+            return (s_.v >> lo) & ((1 << lhs_w) - 1)
     W = max(lhs_w, selfw(e, env))
     sg = issigned(e, env)
     return evalv(e, env, W, sg) & ((1 << lhs_w) - 1)
